@@ -127,6 +127,9 @@ def finding (w : World) : Op → Option Finding
   | .embed s host sub _ =>
     if !specOK s || (dget w.block host).isNone || !(s.blocks.any fun b => b.1 == sub) then none
     else if s.rocks.any (fun r => rockNameInUse w r.1) then some .f2 else none
+  | .embedStandalone s host sub _ _ =>
+    if !specOK s || (dget w.block host).isNone || !(s.blocks.any fun b => b.1 == sub) then none
+    else if s.rocks.any (fun r => rockNameInUse w r.1) then some .f2 else none
   | .readdBlock nm =>
     match outsideBlock w nm with
     | none => none
@@ -200,6 +203,12 @@ def pre (w : World) : Op → Bool
     (if left then sumOK w1 w1.grid other else sumOK w1 other w1.grid)
   -- misuse: host must be a block of this grid and the other end a block of the sub-grid
   | .embed s host sub _ =>
+    let (w1, other) := buildSpec w s
+    specOK s && preAllBasic (w.withGrid ⟨[], [], [], [], [], []⟩) (specOps s) &&
+    (dget w.block host).isSome && (dget other.block sub).isSome &&
+    w1.rocktypelist.all (fun x => other.rocktypelist.all fun y => w1.rname x != w1.rname y || !rockUsedIn w1 w1.grid x)
+  -- as for embed: the standalone host block must carry the name of a block of this grid
+  | .embedStandalone s host sub _ _ =>
     let (w1, other) := buildSpec w s
     specOK s && preAllBasic (w.withGrid ⟨[], [], [], [], [], []⟩) (specOps s) &&
     (dget w.block host).isSome && (dget other.block sub).isSome &&
